@@ -93,6 +93,67 @@ def adversarial_text_job():
     return {"prog": {"classes": [], "aliases": {}}, "ops": ops}
 
 
+SEQ_SRC = """
+import dataclasses, datetime, decimal, typing, uuid
+@dataclasses.dataclass
+class Event:
+    id: typing.Union[uuid.UUID, str]
+    at: typing.Union[datetime.datetime, str]
+    n: typing.Union[typing.List[int], typing.List[str]] = dataclasses.field(default_factory=list)
+"""
+U1, U2 = "uuid.UUID('12345678-1234-5678-1234-567812345678')", "uuid.UUID('00000000-0000-4000-8000-000000000001')"
+DT = "datetime.datetime(2024, 2, 29, 12, 30, 15, 250, tzinfo=datetime.timezone.utc)"
+SEQ_CASES = [("typing.Union[uuid.UUID, str]", [U1, "'hello'", U2, "'x'", U1]),
+             ("typing.Union[datetime.datetime, str]", [DT, "'soon'", DT]),
+             ("typing.Union[typing.List[int], typing.List[str]]", ["[1, 2]", "['a', 'b']", "[3, 4]", "[]", "[5]"]),
+             ("typing.Dict[str, typing.Union[uuid.UUID, str]]", ["{'k': " + U1 + "}", "{'k': 'text'}", "{'k': " + U2 + ", 'j': 'w'}"]),
+             ("Event", [f"Event({U1}, {DT}, [1])", "Event('plain', 'later', ['a'])", f"Event({U2}, {DT}, [2, 3])"]),
+             ("typing.Optional[typing.Union[int, str]]", ["1", "'a'", "None", "2"])]
+
+
+def _seq_child(case):
+    import json as _json
+    import sys
+    import types
+    import warnings
+    warnings.simplefilter("ignore")
+    import typelib
+    mod = types.ModuleType("vm_c02_seq")
+    sys.modules["vm_c02_seq"] = mod
+    ns = mod.__dict__
+    exec(SEQ_SRC, ns)
+    t = eval(case[0], ns)
+    bad = []
+    for dec_name, enc_f, dec_f in (("default", None, None), ("stdlib", lambda o: _json.dumps(o).encode(), _json.loads)):
+        c = typelib.codec(t) if enc_f is None else typelib.codec(t, encoder=enc_f, decoder=dec_f)
+        for i, src in enumerate(case[1]):
+            v = eval(src, ns)
+            try:
+                wire = c.encode(v)
+                back = c.decode(wire)
+                ok = back == v and type(back) is type(v) and _json.loads(wire) == typelib.marshal(v, t=t)
+                got = repr(back)[:120]
+            except Exception as e:  # noqa: BLE001
+                ok, got = False, f"raised {type(e).__name__}: {e}"[:120]
+            if not ok:
+                bad.append(f"[{dec_name}] value #{i} {src[:70]} of the sequence came back as {got}")
+    return bad
+
+
+def union_sequence_probe(res):
+    from .. import iso
+    outs = iso.map_isolated(_seq_child, SEQ_CASES, timeout=60.0)
+    for case, bad in zip(SEQ_CASES, outs):
+        if not isinstance(bad, list):
+            raise RuntimeError(f"harness: union sequence probe failed: {case[0]}: {bad}")
+        res.case({"ann": case[0], "family": "sequence-through-one-codec"}, True)
+        if bad:
+            res.failures.append({"what": f"codec({case[0]}): " + bad[0] + (f" (+{len(bad) - 1} more)" if len(bad) > 1 else ""),
+                                 "input": {"seq_case": [case[0], case[1]]}})
+        else:
+            res.count("oracle:sequence-through-one-codec-ok")
+
+
 def explore(ctx):
     res = Result()
     res.rule = RULE
@@ -152,6 +213,7 @@ def explore(ctx):
             res.count("oracle:entrypoints-agree" + ("-bytes" if is_bytes else ""))
     from .c01 import inheritance_probe
     inheritance_probe(res, "codec")
+    union_sequence_probe(res)
     return res
 
 
@@ -165,6 +227,11 @@ def witness(fid):
 
 def replay(failure):
     inp = failure["input"]
+    if "seq_case" in inp:
+        from .. import iso
+        bad = iso.map_isolated(_seq_child, [(inp["seq_case"][0], inp["seq_case"][1])], timeout=60.0)[0]
+        print(json.dumps({"case": inp["seq_case"], "differences": bad}, indent=1))
+        return bool(bad)
     if "inherit_case" in inp:
         from .. import iso
         from .c01 import _inherit_child
